@@ -51,6 +51,22 @@ pub enum Case {
     Program { genes: Vec<Gene>, via_bits: bool },
     /// explicit program (regression inputs)
     Explicit { els: Vec<El>, via_bits: bool },
+    /// one numeric opcode on numbers at the width boundaries of the number encoding: +/-(2^exp + delta)
+    Boundary { op: u8, args: Vec<(u8, i8, bool)>, padded: bool },
+    /// one opcode on items of the given lengths above `pad` one-byte items (OP_SIZE / OP_DEPTH results that need 2..4 bytes)
+    Sized { op: u8, lens: Vec<u32>, pad: u16, seed: u8 },
+}
+
+pub const BOUNDARY_EXPS: [u8; 13] = [0, 7, 8, 15, 16, 23, 24, 31, 32, 39, 63, 64, 127];
+pub const SIZED_LENS: [u32; 10] = [127, 128, 129, 255, 256, 257, 32767, 32768, 65535, 65536];
+
+pub fn boundary_number(exp: u8, delta: i8, neg: bool) -> BigInt {
+    let v = (BigInt::from(1) << (exp as usize % 130)) + BigInt::from(delta);
+    if neg {
+        -v
+    } else {
+        v
+    }
 }
 
 /// (opcode, arity used for the exhaustive enumeration)
@@ -114,7 +130,46 @@ fn program_of(case: &Case) -> Vec<El> {
         }
         Case::Program { genes, .. } => build_program(genes),
         Case::Explicit { els, .. } => els.clone(),
+        Case::Boundary { op, args, padded } => {
+            let mut els = vec![];
+            for (exp, delta, neg) in args {
+                let mut v = im::enc(&boundary_number(*exp, *delta, *neg));
+                if *padded && !v.is_empty() {
+                    // non-minimal encoding of the same number: move the sign bit to an extra byte
+                    let last = v.len() - 1;
+                    let sign = v[last] & 0x80;
+                    v[last] &= 0x7f;
+                    v.push(0);
+                    v.push(sign);
+                }
+                els.push(push_el(&v));
+            }
+            els.push(El::Op(*op));
+            els
+        }
+        Case::Sized { op, lens, pad, seed } => {
+            let mut els: Vec<El> = (0..*pad).map(|i| El::Op(0x51 + (i % 16) as u8)).collect();
+            for (k, l) in lens.iter().enumerate() {
+                let form = match tok::minimal_push_opcode(*l as usize) {
+                    f @ 76..=78 => f,
+                    _ => 0,
+                };
+                els.push(if *l == 0 { El::Op(0) } else { El::Push(form, Bytes::Fill { len: *l, seed: seed.wrapping_add(k as u8) }) });
+            }
+            els.push(El::Op(*op));
+            els
+        }
     }
+}
+
+/// opcodes that read their operands as numbers
+pub fn numeric_ops() -> Vec<(u8, usize)> {
+    op_table().into_iter().filter(|(o, _)| matches!(*o, 128 | 129 | 139..=140 | 143..=165)).collect()
+}
+
+/// opcodes whose result depends on item lengths or stack depth
+pub fn sized_ops() -> Vec<(u8, usize)> {
+    op_table().into_iter().filter(|(o, _)| matches!(*o, 116 | 118 | 126 | 129 | 130 | 131 | 132..=136 | 166..=170)).collect()
 }
 
 const MAX_ITEM: usize = 1 << 20;
@@ -389,7 +444,7 @@ impl Property for C14 {
     const ID: &'static str = "C14";
 
     fn rule() -> String {
-        "Bounded-exhaustive: every modelled opcode applied to every stack of depth 0..arity+1 over an 18-value alphabet (empty, +/-0, small and multi-byte positive and negative numbers, non-minimal encodings, 20-byte blob; 4 values for arity >= 4), unary/nullary opcodes also with 0..2 alt-stack items; every conditional shape x IF/NOTIF x every alphabet condition. Random: programs of <= 80 elements from a stack-depth-aware grammar (the reference model tracks the depth while the program is built), nested IF/NOTIF/ELSE/ENDIF to depth 4 with empty/missing branches, numbers up to 40 bytes, half through bytes -> Script::from_bytes, half through Script::from_script_bits. Oracle: the Bitcoin SV reference model (refimpl::interp_model, 409 hand-computed table rows) stepped in lock-step: after each Iterator::next main and alt stack must equal the model's, and the library must return Err exactly at the step where the model fails; after OP_RETURN or the last element next() must be None. Non-trivial = executes a non-commutative/positional operator, a conditional, a negative or multi-byte operand, or a failing step; distinct by hash of the serialised case.".into()
+        "Bounded-exhaustive: every modelled opcode applied to every stack of depth 0..arity+1 over an 18-value alphabet (empty, +/-0, small and multi-byte positive and negative numbers, non-minimal encodings, 20-byte blob; 4 values for arity >= 4), unary/nullary opcodes also with 0..2 alt-stack items; every conditional shape x IF/NOTIF x every alphabet condition. Random (80 %): programs of <= 80 elements from a stack-depth-aware grammar (the reference model tracks the depth while the program is built), nested IF/NOTIF/ELSE/ENDIF to depth 4 with empty/missing branches, numbers up to 40 bytes, half through bytes -> Script::from_bytes, half through Script::from_script_bits; (15 %) one numeric opcode on 1..3 width-boundary numbers; (5 %) one length/depth-dependent opcode on items up to 70 000 bytes above up to 300 items. Oracle: the Bitcoin SV reference model (refimpl::interp_model, 409 hand-computed table rows) stepped in lock-step: after each Iterator::next main and alt stack must equal the model's, and the library must return Err exactly at the step where the model fails; after OP_RETURN or the last element next() must be None. Non-trivial = executes a non-commutative/positional operator, a conditional, a negative or multi-byte operand, or a failing step; distinct by hash of the serialised case.".into()
     }
 
     fn assumptions() -> Vec<String> {
@@ -408,6 +463,8 @@ impl Property for C14 {
             "every modelled opcode x every stack of depth 0..=arity+1 over the 18-value alphabet (4 values when arity >= 4)".into(),
             "nullary/unary opcodes x 0..=2 alt-stack items".into(),
             "IF/NOTIF x 6 branch shapes x 18 condition values x {0,1} items below".into(),
+            "every unary numeric opcode on +/-(2^e + d), e in {0,7,8,15,16,23,24,31,32,39,63,64,127}, d in -2..=2, minimal and padded; every binary numeric opcode on pairs over e in {7,8,15,16,23,24,31,32,63,64}, d in -1..=1".into(),
+            "OP_SIZE / OP_DEPTH / byte-string opcodes on items of 127..65536 bytes (OP_SIZE also 8 MiB -/+ 1) and above 126..257 items".into(),
         ]
     }
 
@@ -451,6 +508,55 @@ impl Property for C14 {
                 }
             }
         }
+        // numbers at the width boundaries of the encoding: every unary numeric opcode on +/-(2^exp + d), every binary one on pairs
+        let all_nums: Vec<(u8, i8, bool)> = BOUNDARY_EXPS.iter().flat_map(|e| (-2i8..=2).flat_map(move |d| [false, true].into_iter().map(move |n| (*e, d, n)))).collect();
+        let pair_nums: Vec<(u8, i8, bool)> = [7u8, 8, 15, 16, 23, 24, 31, 32, 63, 64].iter().flat_map(|e| (-1i8..=1).flat_map(move |d| [false, true].into_iter().map(move |n| (*e, d, n)))).collect();
+        for (op, arity) in numeric_ops() {
+            match arity {
+                1 => {
+                    for a in &all_nums {
+                        for padded in [false, true] {
+                            idx += 1;
+                            if idx % nshards == shard && !f(Case::Boundary { op, args: vec![*a], padded }) {
+                                return;
+                            }
+                        }
+                    }
+                }
+                2 if !matches!(op, 128 | 152 | 153) => {
+                    for a in &pair_nums {
+                        for b in &pair_nums {
+                            idx += 1;
+                            if idx % nshards == shard && !f(Case::Boundary { op, args: vec![*a, *b], padded: false }) {
+                                return;
+                            }
+                        }
+                    }
+                }
+                _ => {}
+            }
+        }
+        // OP_SIZE / OP_DEPTH and the byte-string opcodes on items whose length, or above a stack whose depth, needs 2..4 bytes
+        for (op, arity) in sized_ops() {
+            for l in SIZED_LENS.iter().chain(if op == 130 { [8388607u32, 8388608].iter() } else { [].iter() }) {
+                idx += 1;
+                if idx % nshards != shard {
+                    continue;
+                }
+                let lens = if arity >= 2 { vec![*l, if matches!(op, 132..=134) { *l } else { 1 }] } else { vec![*l] };
+                if !f(Case::Sized { op, lens, pad: 0, seed: op }) {
+                    return;
+                }
+            }
+        }
+        for pad in [126u16, 127, 128, 129, 255, 256, 257] {
+            for op in [116u8, 130] {
+                idx += 1;
+                if idx % nshards == shard && !f(Case::Sized { op, lens: vec![3], pad, seed: 1 }) {
+                    return;
+                }
+            }
+        }
         for code in [99u8, 100] {
             for shape in 0..6u8 {
                 for cond in 0..ALPHABET.len() as u8 {
@@ -475,7 +581,21 @@ impl Property for C14 {
 
     fn strategy(_tier: Tier) -> BoxedStrategy<Case> {
         let gene = (any::<u8>(), any::<u16>(), prop::collection::vec(any::<u8>(), 0..7)).prop_map(|(k, a, v)| Gene { k, a, v });
-        (prop::collection::vec(gene, 1..80), any::<bool>()).prop_map(|(genes, via_bits)| Case::Program { genes, via_bits }).boxed()
+        let num = (prop::sample::select(BOUNDARY_EXPS.to_vec()), -2i8..=2, any::<bool>());
+        let nops = numeric_ops();
+        let sops = sized_ops();
+        prop_oneof![
+            16 => (prop::collection::vec(gene, 1..80), any::<bool>()).prop_map(|(genes, via_bits)| Case::Program { genes, via_bits }),
+            3 => (any::<u16>(), prop::collection::vec(num, 3), any::<bool>()).prop_map(move |(o, nums, padded)| {
+                let (op, arity) = nops[gen::pick(o, nops.len())];
+                Case::Boundary { op, args: nums[..arity.min(3)].to_vec(), padded }
+            }),
+            1 => (any::<u16>(), prop::collection::vec(prop_oneof![prop::sample::select(SIZED_LENS.to_vec()), 0u32..70000], 2), prop_oneof![3 => Just(0u16), 1 => 120u16..300], any::<u8>()).prop_map(move |(o, lens, pad, seed)| {
+                let (op, arity) = sops[gen::pick(o, sops.len())];
+                Case::Sized { op, lens: lens[..arity.clamp(1, 2)].to_vec(), pad, seed }
+            }),
+        ]
+        .boxed()
     }
 
     fn check(case: &Case) -> CheckResult {
@@ -483,6 +603,8 @@ impl Property for C14 {
         let program = program_of(case);
         let via_bits = match case {
             Case::Program { via_bits, .. } | Case::Explicit { via_bits, .. } => *via_bits,
+            Case::Boundary { padded, .. } => *padded,
+            Case::Sized { pad, .. } => pad % 2 == 1,
             Case::Single { stack, .. } => stack.len() % 2 == 1,
             Case::Cond { cond, .. } => cond % 2 == 1,
         };
@@ -492,6 +614,12 @@ impl Property for C14 {
             Case::Cond { .. } => o.label("conditional-shape"),
             Case::Program { .. } => o.label("random-program"),
             Case::Explicit { .. } => o.label("explicit"),
+            Case::Boundary { .. } => o.label("boundary-numbers"),
+            Case::Sized { lens, pad, .. } => {
+                o.label("sized-items");
+                o.label_if(lens.iter().any(|l| *l >= 32768), "item>=32768-bytes");
+                o.label_if(*pad >= 128, "depth>=128");
+            }
         }
         lockstep(&program, via_bits, &mut o)?;
         Ok(o)
